@@ -38,7 +38,7 @@ impl Scenario for IdentSc {
         if class == "agg-positions-wide" {
             // the identity entry at the positions where a narrow position counter wraps: index 255 / 256 (8 bits) in every
             // tier, 65 535 / 65 536 (16 bits) in the thorough tier only (half a minute per list)
-            let wide: &[i64] = if tier == Tier::Thorough { &[254, 255, 256, 257, 65534, 65535, 65536] } else { &[254, 255, 256, 257] };
+            let wide: &[i64] = if tier == Tier::Thorough { &[254, 255, 256, 257, 1023, 1024, 2047, 2048, 3071, 3072, 4095, 4096, 6143, 6144, 8191, 8192, 65534, 65535, 65536] } else { &[254, 255, 256, 257, 1023, 2047, 3071, 4095] };
             p.set("n", wide[(index / 4 % wide.len() as u64) as usize]);
             p.set("scheme", if (index / 2) % 2 == 0 { 2 } else { 1 });
         }
